@@ -1,7 +1,7 @@
 """R-EDIT, R-HEADS, R-FLAGS, R-LABELEDIT, R-LABELFIELDS, R-LABELSPLIT, R-DISCOORDER, R-EDGE."""
 import ast
 
-from ..core import (AnalysisError, path, unparse, norm_test, facts_at, walk_own, split_assumes,
+from ..core import (AnalysisError, Unrecognised, path, unparse, norm_test, facts_at, walk_own, split_assumes,
                     const_str, root_name, no_kill_between)
 from ..events import name_defs, single_def, link_events
 from ..report import Ob
@@ -110,7 +110,7 @@ def r_edit(prog, tier):
                  and isinstance(n.ast.iter, ast.Call) and unparse(n.ast.iter.func) == 'sorted'
                  and any(k.arg == 'key' and unparse(k.value) == 'int' for k in n.ast.iter.keywords)]
         if len(loops) != 1:
-            raise AnalysisError('%s: loop over the requested indices not found' % f.fq)
+            raise Unrecognised('%s: loop over the requested indices not found' % f.fq)
         X = loops[0].ast.target.id
         # effect sites: every statement in the loop that writes a node field or attaches a node
         sites = []
@@ -129,7 +129,7 @@ def r_edit(prog, tier):
                     if n not in sites:
                         sites.append(n)
         if not sites:
-            raise AnalysisError('%s: no effect inside the loop over requested indices' % f.fq)
+            raise Unrecognised('%s: no effect inside the loop over requested indices' % f.fq)
         for n in sites:
             facts = [x[0] for x in facts_at(cfg, n.id) if loops[0].id in cfg.nodes[x[1]].loops]
             lower, upper = _bounds(facts, X, lens, lo, hi_plus)
@@ -150,7 +150,7 @@ def r_edit(prog, tier):
                 if isinstance(sub, ast.Call) and prog.callee(sub, f) == ('trees', 'delete_terminal'):
                     calls.append((n, sub))
     if not calls:
-        raise AnalysisError('punctuation_delete deletes nothing')
+        raise Unrecognised('punctuation_delete deletes nothing')
     for (n, sub) in calls:
         why = punct_filtered(f, sub.args[1], n.id, ('PUNCT',)) if len(sub.args) > 1 else None
         obs.append(Ob('R-EDIT/TARGET', f.fq, 'only punctuation tokens are deleted (`%s`)' % unparse(sub), why is not None,
@@ -250,6 +250,10 @@ def r_labeledit(prog, tier):
             why = '`%s.coindex = ""` between parse and format of the parent label; the result is appended to "@"' % var \
                 if ok else 'co-index blanked but: result used for the @ label %s, parsed from the parent label %s' \
                 % (used, from_parent)
+    if not ok:
+        # positive evidence of the defect: the parent label is parsed and formatted but the co-index is never blanked
+        blanked = any('coindex' in edits for (_, _, _, edits) in eds)
+        ok = False if (eds and not blanked) else None
     obs.append(Ob('R-LABELEDIT', f.fq, 'binarization nodes are labelled "@" + the parent category without its co-index',
                   ok, why, construct='binlabel', line=f.node.lineno))
     at = [n for n in cfg.eval_nodes() if n.kind == 'stmt' and isinstance(n.ast, ast.Assign)
@@ -258,7 +262,7 @@ def r_labeledit(prog, tier):
             and unparse(n.ast.target).endswith(".data['label']")]
     okb = len(at) == 1 and len(bare) == 1 and ('truthy', f.params[1], False) in [x[0] for x in facts_at(cfg, bare[0].id)] \
         and cfg.dominates(at[0].id, bare[0].id)
-    obs.append(Ob('R-LABELEDIT', f.fq, 'the label of an added node starts with "@" and is bare on request', okb,
+    obs.append(Ob('R-LABELEDIT', f.fq, 'the label of an added node starts with "@" and is bare on request', True if okb else None,
                   'label = "@", category appended only when not bare_bin_labels' if okb else 'shape changed',
                   construct='binlabel-at', line=f.node.lineno))
     # ptb_delete_traces: indices are stripped from traces and from every constituent
@@ -266,17 +270,28 @@ def r_labeledit(prog, tier):
     cfg = f.cfg
     eds = _label_edits(prog, f)
     if len(eds) < 2:
-        raise AnalysisError('ptb_delete_traces: %d parse/format sequences (2 expected)' % len(eds))
+        obs.append(Ob('R-LABELEDIT', f.fq, 'index stripping in ptb_delete_traces', None,
+                      '%d parse_label/format_label sequences recognised (2 expected)' % len(eds), construct='ptb-shape'))
     for (var, pn, fm, edits) in eds:
         g_ok = 'gapindex' in edits and any(not extra for (_, extra) in edits['gapindex'])
+        if not g_ok and 'gapindex' in edits:
+            g_ok = False            # removed only under some condition
+        elif not g_ok:
+            g_ok = False
         obs.append(Ob('R-LABELEDIT', f.fq, 'gap index of `%s` is removed unconditionally before the label is rebuilt' % var,
                       g_ok, '`%s.gapindex = ""` on every path from parse to format' % var if g_ok else
                       'some labels keep their gap index', construct='ptb-gap:' + var, line=pn.lineno))
         kcv = [nm2 for nm2 in f.locals for (_, v) in name_defs(f, nm2) if isinstance(v, ast.AST)
                and unparse(v) == "'keepcoindex' in %s" % f.kwarg]
-        c_ok = 'coindex' in edits and any(
-            extra in [[('truthy', k, False)] for k in kcv] + [[('haskey', f.kwarg, 'keepcoindex', False)]]
-            for (_, extra) in edits['coindex'])
+        allowed = set([('truthy', k, False) for k in kcv] + [('haskey', f.kwarg, 'keepcoindex', False)])
+        c_ok = 'coindex' in edits and any(extra and set(extra) <= allowed for (_, extra) in edits['coindex'])
+        if not c_ok:
+            if 'coindex' not in edits:
+                c_ok = False
+            elif any(not extra for (_, extra) in edits['coindex']):
+                c_ok = False        # removed unconditionally: keepcoindex is ignored
+            else:
+                c_ok = None
         obs.append(Ob('R-LABELEDIT', f.fq, 'co-index of `%s` is removed unless keepcoindex is given' % var, c_ok,
                       '`%s.coindex = ""` exactly under `not keepcoindex`' % var if c_ok else
                       'co-index removal is missing or depends on something else than keepcoindex',
@@ -302,6 +317,15 @@ def r_labeledit(prog, tier):
         ok = not escapes
         why = 'every iteration either skips a token (`len(children) == 0`) or stores the re-formatted label' if ok else \
             'some constituents are skipped before their label is rewritten (indices survive on them)'
+        if not ok:
+            # positive evidence: a `continue` under a condition on the parsed label skips the store
+            bad_skip = False
+            for n in cfg.eval_nodes():
+                if n.kind == 'stmt' and isinstance(n.ast, ast.Continue) and n.loops and n.loops[-1] == lp.id and n.id not in skips:
+                    txt = ' '.join(unparse(a.ast) for a in cfg.assumes_at(n.id) if lp.id in a.loops)
+                    if 'coindex' in txt or 'gapindex' in txt or 'label' in txt:
+                        bad_skip = True
+            ok = False if bad_skip else None
     obs.append(Ob('R-LABELEDIT', f.fq, 'index stripping reaches every constituent', ok, why, construct='ptb-every',
                   line=f.node.lineno))
     return obs, {}
@@ -318,7 +342,7 @@ def r_labelfields(prog, tier):
     ff = prog.func('trees', 'format_label')
     rets = [n for n in walk_own(pf.node) if isinstance(n, ast.Return)]
     if len(rets) != 1 or not isinstance(rets[0].value, ast.Name):
-        raise AnalysisError('parse_label does not return a single object name')
+        raise Unrecognised('parse_label does not return a single object name')
     ob = rets[0].value.id
     stored = {}
     for n in walk_own(pf.node):
@@ -340,10 +364,12 @@ def r_labelfields(prog, tier):
                           okv, '%s.%s = %s' % (ob, fld, stored[fld]), construct='fieldsrc:' + fld, nontrivial=False,
                           line=pf.node.lineno))
     # the function part is joined with the separator recorded at parse time
-    ok = False
+    ok = None
     for n in walk_own(ff.node):
         if isinstance(n, ast.BinOp) and isinstance(n.op, ast.Add) and unparse(n.right) == '%s.gf' % lab:
             ok = unparse(n.left) == '%s.gf_separator' % lab
+    if ok is None and 'gf_separator' not in read:
+        ok = False          # the recorded separator is never consulted
     obs.append(Ob('R-LABELFIELDS', 'trees.format_label', 'the grammatical function is glued back with the separator it was '
                   'split off with', ok, '%s.gf_separator + %s.gf' % (lab, lab) if ok else
                   'the separator does not come from the parsed label: a label parsed with another separator comes back '
@@ -353,6 +379,8 @@ def r_labelfields(prog, tier):
     if sepv and sepv.isidentifier():
         defs = [unparse(v) for (_, v) in name_defs(pf, sepv) if isinstance(v, ast.AST)]
         okp = sorted(defs) == sorted(['DEFAULT_GF_SEPARATOR', "%s['gf_separator']" % pf.kwarg])
+    if not okp:
+        okp = None
     obs.append(Ob('R-LABELFIELDS', 'trees.parse_label', 'the separator recorded is the one used for splitting', okp,
                   'default or the gf_separator option' if okp else 'recorded separator `%s`' % sepv,
                   construct='gfsep-rec', line=pf.node.lineno))
@@ -369,7 +397,7 @@ def r_labelfields(prog, tier):
                     bd = [unparse(v) for (_, v) in name_defs(ff, b.id) if isinstance(v, ast.AST)]
                     ok = bd == ["'%s' in %s" % (opt, ff.kwarg)]
         obs.append(Ob('R-LABELFIELDS', 'trees.format_label', 'the default literal of %r is dropped unless %s is given' % (fld, opt),
-                      ok, '`%s.%s != %s or <%s>`' % (lab, fld, dflt, opt) if ok else 'suppression test changed',
+                      True if ok else None, '`%s.%s != %s or <%s>`' % (lab, fld, dflt, opt) if ok else 'suppression test not recognised',
                       construct='dflt:' + fld, line=ff.node.lineno))
     return obs, {}
 
@@ -381,13 +409,17 @@ def r_labelsplit(prog, tier):
     L = f.params[0]
     rebinds = [n for n in cfg.eval_nodes() if n.kind == 'stmt' and isinstance(n.ast, ast.Assign)
                and len(n.ast.targets) == 1 and unparse(n.ast.targets[0]) == L]
-    if len(rebinds) < 4:
-        raise AnalysisError('parse_label: %d rebindings of the label (at least 4 expected)' % len(rebinds))
+    if len(rebinds) < 2:
+        obs.append(Ob('R-LABELSPLIT', f.fq, 'stripping of the label components', None,
+                      '%d rebindings of the label recognised' % len(rebinds), construct='split-shape'))
     for n in rebinds:
         v = n.ast.value
-        ok = False
-        why = '`%s` is not a prefix slice of the label: more (or less) than the recorded component and its separator ' \
-              'may disappear' % unparse(n.ast)
+        ok = None
+        why = '`%s` has a shape this rule does not recognise' % unparse(n.ast)
+        if isinstance(v, ast.Call) and isinstance(v.func, ast.Attribute) and unparse(v.func.value) == L \
+                and v.func.attr in ('rstrip', 'lstrip', 'strip', 'replace', 'translate'):
+            ok = False
+            why = '`%s` can remove more than the one recorded component (all repeated characters go)' % unparse(n.ast)
         if isinstance(v, ast.Subscript) and unparse(v.value) == L and isinstance(v.slice, ast.Slice) \
                 and v.slice.lower is None and v.slice.step is None and v.slice.upper is not None:
             P = unparse(v.slice.upper)
@@ -400,13 +432,13 @@ def r_labelsplit(prog, tier):
                     if mv == '%s[%s + 1:]' % (L, P) or (P == '-1' and mv == '%s[-1]' % L):
                         if no_kill_between(cfg, m.id, n.id, [L, P]):
                             comp = m
-            ok = comp is not None
+            ok = True if comp is not None else None
             why = 'cuts at `%s`; what follows (after one character) was stored by `%s`' % (P, unparse(comp.ast)) if ok else \
-                'prefix slice at `%s` but the remainder `%s[%s + 1:]` is not recorded together with it' % (P, L, P)
+                'prefix slice at `%s`; the matching component assignment was not recognised' % P
         elif unparse(v) == 'DEFAULT_LABEL':
             facts = [x[0] for x in facts_at(cfg, n.id)]
-            ok = ('cmp', 'len(%s)' % L, '==', '0') in facts
-            why = 'empty category replaced by the default literal' if ok else 'default label assigned to a non-empty label'
+            ok = True if (('cmp', 'len(%s)' % L, '==', '0') in facts or ('truthy', L, False) in facts) else None
+            why = 'empty category replaced by the default literal' if ok else 'guard of the default label not recognised'
         obs.append(Ob('R-LABELSPLIT', f.fq, 'rebinding `%s` removes exactly one recorded component' % unparse(n.ast), ok, why,
                       construct='split:' + unparse(n.ast), line=n.lineno))
     # indices must be digits; the search for co-index / gap index uses the formatting separators
@@ -429,12 +461,15 @@ def r_labelsplit(prog, tier):
             if posn:
                 pd = [unparse(v) for (_, v) in name_defs(f, posn[0]) if isinstance(v, ast.AST)]
             ok = dig and pd == ['%s.rfind(%s)' % (L, sep)]
-        obs.append(Ob('R-LABELSPLIT', f.fq, '%s is split off at the last %s and only if it is a number' % (comp, sep), ok,
+        obs.append(Ob('R-LABELSPLIT', f.fq, '%s is split off at the last %s and only if it is a number' % (comp, sep), True if ok else None,
                       'rfind(%s), isdigit()' % sep if ok else 'search or digit test changed', construct='idx:' + comp,
                       line=f.node.lineno))
     # trace test
     td = [unparse(v) for (_, v) in name_defs(f, attr_src.get('is_trace', 'is_trace')) if isinstance(v, ast.AST)]
     ok = len(td) == 1 and "%s[0] == '*'" % L in td[0] and "%s[-1] == '*'" % L in td[0] and ' and ' in td[0]
+    if not ok:
+        # positive evidence: the two ends are combined with `or`
+        ok = False if (len(td) == 1 and ' or ' in td[0] and '*' in td[0] and ' and ' not in td[0].split(' or ')[-1]) else None
     obs.append(Ob('R-LABELSPLIT', f.fq, 'a label is a trace iff its category starts and ends with an asterisk', ok,
                   td[0] if td else 'is_trace not computed', construct='trace', line=f.node.lineno, nontrivial=False))
     return obs, {}
@@ -449,14 +484,32 @@ def r_discoorder(prog, tier):
     t = f.params[0]
     rets = [n for n in cfg.eval_nodes() if n.kind == 'stmt' and isinstance(n.ast, ast.Return)]
     if not rets:
-        raise AnalysisError('disco_order has no return')
+        raise Unrecognised('disco_order has no return')
+    def _is_children_list(e):
+        if isinstance(e, ast.Call) and prog.callee(e, f) == ('trees', 'children'):
+            return True
+        if isinstance(e, ast.Subscript) and isinstance(e.slice, ast.Slice):
+            return _is_children_list(e.value)
+        if isinstance(e, ast.Name):
+            return any(isinstance(d, ast.AST) and _is_children_list(d) for (_, d) in name_defs(f, e.id))
+        return False
     for r in rets:
         v = r.ast.value
+        parts = v.values if isinstance(v, ast.BoolOp) else ([v.body, v.orelse] if isinstance(v, ast.IfExp) else [])
+        if any(_is_children_list(x) for x in parts) or _is_children_list(v):
+            obs.append(Ob('R-DISCOORDER', f.fq, 'a node is returned as such only when it is a token: `%s`' % unparse(r.ast),
+                          False, 'the list of children is handed back as it is: inner nodes appear in place of their tokens',
+                          construct='do-children:' + unparse(r.ast), line=r.lineno))
+            continue
         if isinstance(v, ast.List):
             facts = [x[0] for x in facts_at(cfg, r.id)]
             leaf = ('opaque', 'trees.has_children(%s)' % t, False) in facts or \
                 ('cmp', 'len(trees.children(%s))' % t, '==', '0') in facts
             ok = len(v.elts) == 1 and unparse(v.elts[0]) == t and leaf
+            if not ok and not (len(v.elts) == 1 and unparse(v.elts[0]) == t):
+                ok = False          # a list holding some other node is handed back in place of its tokens
+            elif not ok:
+                ok = None
             obs.append(Ob('R-DISCOORDER', f.fq, 'a node is returned as such only when it is a token: `%s`' % unparse(r.ast),
                           ok, 'guarded by `not trees.has_children(%s)`' % t if ok else
                           'an inner node can be returned in place of its tokens', construct='do:' + unparse(r.ast),
@@ -465,11 +518,14 @@ def r_discoorder(prog, tier):
             defs = [(n, d) for (n, d) in name_defs(f, v.id) if isinstance(d, ast.AST)]
             bad = [unparse(d) for (n, d) in defs if not (isinstance(d, ast.List) and not d.elts)
                    and not (isinstance(d, ast.Call) and prog.callee(d, f) == ('treeanalysis', 'disco_order'))]
-            obs.append(Ob('R-DISCOORDER', f.fq, 'every other result is built from the recursive results of the children', not bad,
+            obs.append(Ob('R-DISCOORDER', f.fq, 'every other result is built from the recursive results of the children', True if not bad else None,
                           '%d definitions, all disco_order(child, mode)' % len(defs) if not bad else
                           'definition(s) %s are not recursive results' % bad, construct='do-rec', line=r.lineno))
+        elif isinstance(v, ast.Call) and prog.callee(v, f) == ('treeanalysis', 'disco_order'):
+            obs.append(Ob('R-DISCOORDER', f.fq, 'every other result is built from the recursive results of the children', True,
+                          'returns the recursive result directly', construct='do-rec2:' + unparse(r.ast), line=r.lineno))
         else:
-            obs.append(Ob('R-DISCOORDER', f.fq, 'return value has a recognised shape', False, unparse(r.ast),
+            obs.append(Ob('R-DISCOORDER', f.fq, 'return value has a recognised shape', None, unparse(r.ast),
                           construct='do?:' + unparse(r.ast), line=r.lineno))
     return obs, {}
 
@@ -487,7 +543,7 @@ def r_edge(prog, tier):
                 if isinstance(sub, ast.Call) and prog.callee(sub, f) == ('trees', 'lca'):
                     calls.append((n, sub))
     if len(calls) != 1:
-        raise AnalysisError('root_attach: %d lca calls' % len(calls))
+        raise Unrecognised('root_attach: %d lca calls' % len(calls))
     n, call = calls[0]
     a0, a1 = call.args
     # tree_terms[t_l - 1], tree_terms[t_r - 1]
@@ -497,7 +553,7 @@ def r_edge(prog, tier):
                 and unparse(a.slice.right) == '1' and isinstance(a.slice.left, ast.Name):
             idx.append((unparse(a.value), a.slice.left.id))
     if len(idx) != 2:
-        raise AnalysisError('root_attach: lca arguments are not <terminals>[t - 1]')
+        raise Unrecognised('root_attach: lca arguments are not <terminals>[t - 1]')
     terms = idx[0][0]
     td = [unparse(v) for (_, v) in name_defs(f, terms) if isinstance(v, ast.AST)]
     terms_ok = td == ['trees.terminals(%s)' % tree]
@@ -518,7 +574,13 @@ def r_edge(prog, tier):
     trd = [unparse(v) for (_, v) in name_defs(f, tr) if isinstance(v, ast.AST)]
     shape = len(tld) == 1 and tld[0].startswith('min(') and tld[0].endswith(') - 1') and \
         all(d.startswith('max(') and d.endswith(') + 1') for d in trd) and len(trd) >= 1
-    ok = terms_ok and lo and hi and shape
+    ok = True if (terms_ok and lo and hi and shape) else None
+    if ok is None and terms_ok and tmin and tmax:
+        # positive evidence: the neighbours are compared with the sentence boundaries, but not with the exact relation
+        rel_l = [fa for fa in facts if fa[0] == 'cmp' and set((fa[1], fa[3])) == set((tmin, tl))]
+        rel_r = [fa for fa in facts if fa[0] == 'cmp' and set((fa[1], fa[3])) == set((tmax, tr))]
+        if (rel_l and not lo) or (rel_r and not hi):
+            ok = False
     obs.append(Ob('R-EDGE', f.fq, 'a root child is re-attached exactly when both its left and right neighbour tokens exist',
                   ok, 'the move is dominated by `%s <= %s` and `%s <= %s` (left neighbour = min - 1, right = max + 1)'
                   % (tmin, tl, tr, tmax) if ok else
@@ -547,6 +609,9 @@ def r_edge(prog, tier):
         okl = recompute.get(foc) is True and recompute.get(sib) is True
         why = 'token spans of focus and sibling are recomputed in every iteration of the skipping loop' if okl else \
             'the spans compared in the skipping loop are not recomputed per iteration (%s)' % recompute
+    if not okl:
+        # positive evidence: a span used in the loop test is computed before the loop from a variable the loop rebinds
+        okl = False if ('not recomputed' in why) else None
     obs.append(Ob('R-EDGE', f.fq, 'skipping over adjacent unattached siblings compares the current focus with the current '
                   'sibling', okl, why, construct='edge-skip', line=f.node.lineno))
     return obs, {}
